@@ -222,7 +222,17 @@ def check(item, case, rec):
             # a plain 2-D field needs a 2-D constitutive law
             um = fem.constitution.LinearElasticPlaneStrain(E=2.0 + abs(case["load"]), nu=0.3)
             symmetric = True
-        body = fem.SolidBody(um, fc)
+        if case["lseed"] % 4 == 0:
+            # the documented apply= hook (a callable applied on the assembled vector and matrix alike): rows scaled by a
+            # diagonal operator; the scaled matrix is the derivative of the scaled vector, but no longer symmetric
+            from scipy.sparse import diags
+
+            T = diags(1.0 + 0.5 * np.sin(1.0 + np.arange(int(sum(fc.fieldsizes)))))
+            body = fem.SolidBody(um, fc, apply=lambda A_: T @ A_)
+            symmetric = False
+            rec.label("apply-hook")
+        else:
+            body = fem.SolidBody(um, fc)
         set_state(fc, X, case, dim)
         registry = item in ("SolidBody/3d", "SolidBody/planestrain", "SolidBody/axi") and not (dim == 2 and fkind == "3d") and mname in gmat.REG
         ns = gmat.REG[mname]["nstate"] if registry else (28 if item == "SolidBody/plasticity" else 0)
